@@ -22,6 +22,6 @@ for d in "$VERIF_ROOT"/seeded/${1:-*}/; do
   git -C /repo checkout -q -- .
   flock -u 7; unset VERIF_REPO_LOCK_HELD
   r="MISSED"; [ -n "$caught" ] && r="CAUGHT"
-  [ "$r" = MISSED ] && [ -f "$d/STATUS.md" ] && r="NEUTRALISED (no longer breaks the property, see STATUS.md)"
+  [ "$r" = MISSED ] && [ -f "$d/STATUS.md" ] && r="NOT-CAUGHT, explained in STATUS.md: $(head -1 "$d/STATUS.md" | cut -c1-110)"
   echo -e "$id\t$r\t$(echo $caught)\t$kinds" | tee -a "$out"
 done
